@@ -26,31 +26,31 @@ type Sub struct {
 }
 
 var (
-	flagIn    = flag.String("in", "", "cases ndjson")
-	flagOut   = flag.String("out", "", "observations ndjson")
-	flagSeed  = flag.Int64("seed", 1, "seed for any random choice")
-	flagExtra = flag.Int("extra", 0, "number of extra seeded cases")
-	flagJ     = flag.Int("j", 0, "parallelism (0 = NumCPU)")
+	FlagIn    = flag.String("in", "", "cases ndjson")
+	FlagOut   = flag.String("out", "", "observations ndjson")
+	FlagSeed  = flag.Int64("seed", 1, "seed for any random choice")
+	FlagExtra = flag.Int("extra", 0, "number of extra seeded cases")
+	FlagJ     = flag.Int("j", 0, "parallelism (0 = NumCPU)")
 )
 
 func Main(s *Sub) {
 	flag.Parse()
 	if s.Whole != nil {
-		if err := s.Whole(*flagIn, *flagOut, *flagSeed, flag.Args()); err != nil {
+		if err := s.Whole(*FlagIn, *FlagOut, *FlagSeed, flag.Args()); err != nil {
 			fmt.Fprintln(os.Stderr, "driver:", err)
 			os.Exit(2)
 		}
 		return
 	}
-	cases, err := ReadLines(*flagIn)
+	cases, err := ReadLines(*FlagIn)
 	if err != nil {
 		fmt.Fprintln(os.Stderr, "driver:", err)
 		os.Exit(2)
 	}
-	if s.Extra != nil && *flagExtra > 0 {
-		cases = append(cases, s.Extra(*flagSeed, *flagExtra)...)
+	if s.Extra != nil && *FlagExtra > 0 {
+		cases = append(cases, s.Extra(*FlagSeed, *FlagExtra)...)
 	}
-	j := *flagJ
+	j := *FlagJ
 	if j <= 0 {
 		j = runtime.NumCPU()
 	}
@@ -65,7 +65,7 @@ func Main(s *Sub) {
 		go func() {
 			defer wg.Done()
 			for i := range ch {
-				results[i] = s.Each(cases[i], *flagSeed)
+				results[i] = s.Each(cases[i], *FlagSeed)
 			}
 		}()
 	}
@@ -74,7 +74,7 @@ func Main(s *Sub) {
 	}
 	close(ch)
 	wg.Wait()
-	f, err := os.Create(*flagOut)
+	f, err := os.Create(*FlagOut)
 	if err != nil {
 		fmt.Fprintln(os.Stderr, "driver:", err)
 		os.Exit(2)
